@@ -629,9 +629,9 @@ CORPUS = [
     ('tx instance detached: second rollback does not reach it', True,
      [('create', 'P', 1, 1, 0), ('get', 'T', 1, False), ('rollback',), ('begin',), ('read', 'T', 0, 0),
       ('set', 'T', 0, 0, 7), ('rollback',), ('begin',), ('read', 'T', 0, 0)], K_RBDET),
-    ('dead weakref entry shadows the strong entry in tryGet: rollback does not reach the new instance', True,
+    ('a dead weakref entry of the same id does not hide the new instance from rollback (tryGet falls through)', True,
      [('create', 'P', 1, 1, 0), ('get', 'T', 1, False), ('cull', 'T', 0), ('drop', 'T', 0), ('destroy', 'P', 0),
-      ('create', 'T', 1, 5, 5), ('rollback',), ('begin',), ('read', 'T', 1, 0)], K_RBDET),
+      ('create', 'T', 1, 5, 5), ('rollback',), ('begin',), ('read', 'T', 1, 0)], None),
     ('deleted in tx, commit -> NotFound on parent', True,
      [('create', 'P', 1, 1, 0), ('create', 'P', 1001, 4, 4), ('get', 'T', 1, False), ('destroy', 'T', 0), ('read', 'P', 0, 0),
       ('get', 'P', 1, False), ('commit', 0), ('read', 'P', 0, 0), ('get', 'P', 1, False), ('select', 'P', 0), ('select', 'T', 0)], None),
